@@ -456,7 +456,7 @@ class Check:
         for inst in self.instances:
             counts[inst['rule']] = counts.get(inst['rule'], 0) + inst.get('count', 1)
         for rule, floor in self.floors.items():
-            if counts.get(rule, 0) < floor and not any(u['rule'] == rule for u in self.unrecognised):
+            if counts.get(rule, 0) < floor and not any(u['rule'] == rule for u in self.unrecognised) and not any(f.rule == rule for f in self.findings):
                 self.unrec(rule, f'only {counts.get(rule, 0)} instances found, floor is {floor} (rule would pass vacuously)')
 
         known = load_known()
